@@ -182,6 +182,18 @@ func checkMsg(m *dns.Msg, wf bool, emit bool) {
 		Viol(key, "Unpack(Pack(m)) != m", map[string]string{"msg": after, "got": got, "wire": Hx(w)})
 		return
 	}
+	// the decoded message is a value of its own: the receive buffer may be reused afterwards
+	{
+		t1, _ := MsgText(m2)
+		wc := append([]byte{}, w...)
+		for i := range w {
+			w[i] = 0xAA
+		}
+		if t2, _ := MsgText(m2); t2 != t1 {
+			Viol("C01/msg/unpacked-fields-alias-the-buffer", "overwriting the input buffer after Unpack changes the decoded message", map[string]string{"msg": t1, "after": t2, "wire": Hx(wc)})
+		}
+		copy(w, wc)
+	}
 	// converse on canonical uncompressed octets
 	if !m.Compress {
 		m2.Compress = false
@@ -252,6 +264,17 @@ func run(r *Rng, tier string, n int) {
 			if !strings.HasPrefix(pr, "ok:") || !bytes.Equal(w, w2) {
 				Viol("C01/rdataless-repack/"+dns.TypeToString[t], "Pack(Unpack(octets)) != octets for an RDATA-less record: "+pr, inRR{dns.TypeToString[t], "", Hx(w), ""})
 			}
+			// ... and as the LAST record of a message that Msg.Pack sizes itself (a dynamic update): whatever
+			// PackRR accepts with room to spare, Pack accepts too
+			if strings.HasPrefix(pr, "ok:") {
+				um := new(dns.Msg)
+				um.SetUpdate("example.org.")
+				um.Ns = []dns.RR{dns.Copy(rr2)}
+				if _, err := um.Pack(); err != nil {
+					Viol("C01/msg/pack-fails-on-trailing-empty-record", "Msg.Pack fails on an update whose last record is an RDATA-less "+dns.TypeToString[t]+": "+err.Error(), inRR{dns.TypeToString[t], "", Hx(w), ""})
+				}
+				st["nordata_msg_checked"]++
+			}
 		}
 	}
 	// (1c) empty collections and strings: generated records with one non-name string or slice field
@@ -293,6 +316,13 @@ func run(r *Rng, tier string, n int) {
 			}
 			st["empty_value_checked"]++
 			checkRR(c, GenInfo{WellFormed: true, Note: "empty value"}, false)
+			em := new(dns.Msg)
+			em.SetQuestion("example.org.", t)
+			em.Answer = []dns.RR{dns.Copy(c)}
+			if _, err := em.Pack(); err != nil {
+				tx, _ := RRText(c)
+				Viol("C01/msg/pack-fails-on-trailing-empty-record", "Msg.Pack fails on a message whose last record has an empty field although PackRR packs it: "+err.Error(), inRR{dns.TypeToString[t], tx, "", ""})
+			}
 		}
 	}
 	// (1d) EDNS0 Client Subnet: every prefix length of both families, address canonical (no bits beyond
